@@ -179,7 +179,11 @@ func runLifeDevice(c jLifeDevice) (res jLifeDevResult) {
 		// pacing: an autorepeat event (value 2, ignored by the device) of key code 0 stands for "the stream is quiet for 25 ms here"
 		// (two LED refresh cycles), so that the NEXT event is processed right after LED frames with no event in between
 		if e.T == "k" && e.Val == 2 && e.Code == 0 {
-			time.Sleep(25 * time.Millisecond)
+			if e.Sub == "verif-pause-1s" { // ageing: a full second of silence (periodic timers of 1 / 5 / 10 s fire during such sessions)
+				time.Sleep(time.Second)
+			} else {
+				time.Sleep(25 * time.Millisecond)
+			}
 		}
 		if !send(mkEvent(e)) || !send(synEvent()) {
 			res.PanicAt = i
